@@ -149,7 +149,7 @@ CHECKS = [
      "not_covered": ["the published formula of each selection criterion", "that the ellipsoid filter honours custom weekday maps (it hard-codes Mon-Fri)"],
      },
     {"id": "C09", "level": "proof", "modules": ["contracts.C09_daymean", "contracts.C08_asfreq"], "bounded": ["flow.C09_tables", "bounded.C09_daymean"],
-     "technique": "deductive verification of the half rule on a row-wise model (pyvc, z3) + bounded per-meter-day reference through the real data classes",
+     "technique": "deductive verification of the half rule and of as_freq (instantaneous) on a row-wise model (pyvc, z3) + call-site table obligations + bounded per-meter-day reference through the real data classes",
      "text": "Proof: for one arbitrary day of the aggregated frame, _compute_temperature_features (daily and billing classes, real source) blanks the day's "
              "temperature exactly when half or fewer of its readings are present (hourly feeds: not_null / (not_null + null) <= 1/2; sub-hourly feeds: "
              "coverage <= 1/2), otherwise hands the aggregated mean on unchanged -- in particular NOT divided by the coverage -- names the result "
@@ -186,7 +186,7 @@ CHECKS = [
              "conditions are conditions of the argument and the bounded part decides the rest; nlopt / sklearn / numba determinism is assumed",
      "not_covered": ["CalTRACK hourly fits in the bounded part", "more than 4 concurrent workers", "bit-identity across machines / BLAS builds (not claimed by the property)"]},
     {"id": "C08", "level": "proof", "modules": ["contracts.C08_conserve", "contracts.C08_asfreq"], "bounded": ["flow.C08_tables", "bounded.C08_conserve"],
-     "technique": "deductive verification of the cleaning steps on a row-wise model (pyvc, z3) + bounded exact-arithmetic conservation through the real data classes",
+     "technique": "deductive verification of as_freq and the cleaning steps on a row-wise model (pyvc, z3) + call-site table obligations + bounded exact-arithmetic conservation through the real data classes",
      "text": "Proof: for one arbitrary row of an arbitrary frame, downsample_and_clean_daily_data keeps every day, blanks a day covered for half or "
              "less and divides a day covered for more than half by its coverage (a fully covered day is the plain sum); clean_billing_data keeps "
              "the billed amount of a period of 25..35 (bi-monthly 25..70) calendar days, blanks every other period and KEEPS its row, and does not "
@@ -194,9 +194,13 @@ CHECKS = [
              "daylight-saving change, is modelled and refuted). Bounded (labelled so): real billing / daily data classes and the helpers against "
              "exact interval arithmetic in absolute time: per-period sums, per-day constant-rate shares, off-cycle thresholds, 15/30/60-minute "
              "feeds with gaps on DST days.",
-     "note": "as_freq's pandas pipeline (asfreq / resample) is outside the symbolic part: conservation through it is decided by the bounded part only; "
-             "known finding C08-subdaily-gap-not-scaled; fix 8ca01c07 (calendar-day period lengths)",
-     "not_covered": ["as_freq itself is exercised by the bounded part only", "readings not aligned to the reading interval / local midnight (outside the property's quantifier)"]},
+     "note": "as_freq is proved over ASSUMED contracts of pandas' asfreq / resample: for one arbitrary reading whose interval is a whole number of "
+             "minutes, the per-slot rate times the number of slots is the reading itself (conservation), the aggregate is a daily sum blanked where the "
+             "bin starts with a missing slot, coverage is present slots / all slots, and the atomic step must divide every interval (obligation at the "
+             "asfreq call; call-site table obligations keep every caller on the default 1-minute step and on the right series type). That pandas' "
+             "asfreq / resample behave as assumed, and the end-to-end numbers, are decided by the bounded part only; known finding "
+             "C08-subdaily-gap-not-scaled; fix 8ca01c07 (calendar-day period lengths)",
+     "not_covered": ["pandas' asfreq / resample themselves (assumed contracts, exercised by the bounded part)", "readings not aligned to the reading interval / local midnight (outside the property's quantifier)"]},
     {"id": "C17", "level": "proof", "modules": ["contracts.C17_prepare"], "bounded": ["flow.C17_frame", "bounded.C17_keep"],
      "technique": "deductive verification of interpolate() on a row-wise model (pyvc, one arbitrary row of an arbitrary frame, z3) + AST frame obligation on _interpolate_col + bounded cell-by-cell comparison through the real hourly data classes",
      "text": "Proof: for one arbitrary row of an arbitrary frame and every branch of the lag selection, interpolate() keeps every cell that was "
